@@ -41,10 +41,10 @@ def children_of(o):
     """(kind, index, start, end, coding, spec) for every child, as the oracle sees them"""
     out = []
     for i, g in enumerate(o.get("genes", [])):
-        out.append(("gene", i, min(t["exons"][0][0] for t in g["transcripts"]), max(t["exons"][-1][1] for t in g["transcripts"]),
+        out.append(("gene", i, min(t["exons"][0][0] for t in g["transcripts"]), max(b_[1] for t in g["transcripts"] for b_ in t["exons"]),
                     any("cds" in t for t in g["transcripts"]), g))
     for i, c in enumerate(o.get("feature_collections", [])):
-        out.append(("fc", i, min(f["blocks"][0][0] for f in c["features"]), max(f["blocks"][-1][1] for f in c["features"]), False, c))
+        out.append(("fc", i, min(f["blocks"][0][0] for f in c["features"]), max(b_[1] for f in c["features"] for b_ in f["blocks"]), False, c))
     for i, c in enumerate(o.get("variant_collections", [])):
         out.append(("vc", i, min(v["start"] for v in c["variants"]), max(v["end"] for v in c["variants"]), False, c))
     return out
@@ -81,6 +81,9 @@ def build(spec):
 
 def src_child(coll, kind, i):
     return {"gene": coll.genes, "fc": coll.feature_collections, "vc": coll.variant_collections}[kind][i]
+
+
+_FLAGS = {"minus_chunk": False}
 
 
 def check_result_members(ctx, clause, coll, res, expected, g, rs, re_, filtered=None):
@@ -120,13 +123,22 @@ def check_result_members(ctx, clause, coll, res, expected, g, rs, re_, filtered=
                     except BioCantorException as e:
                         ctx.fail(clause + ":grandchild_sequence_raises", repr(e)[:120])
                         continue
-                    ctx.eq(clause + ":grandchild_sequence", seq, rm.seq_image(g, inside, strand))
+                    want_seq = rm.seq_image(g, inside, strand)
+                    cl_ = [(max(a_, rs), min(b_, re_)) for a_, b_ in blocks if max(a_, rs) < min(b_, re_)]
+                    if rm.has_self_overlap([list(b_) for b_ in blocks]):
+                        ctx.label("member_with_nested_blocks")
+                        if _FLAGS["minus_chunk"] or len({a_ for a_, _ in cl_}) < len(cl_) or len({b_ for _, b_ in cl_}) < len(cl_):
+                            # the bounds clip two overlapping blocks to a tie, or the chunk is the reverse complement of its window (the
+                            # mirrored blocks are re-sorted by start): their 5'->3' order is not representable (C01 F1/F25)
+                            seq, want_seq = "".join(sorted(seq)), "".join(sorted(want_seq))
+                    ctx.eq(clause + ":grandchild_sequence", seq, want_seq)
                     ctx.label("member_sequence_checked")
                     if len(inside) < len(pos):
                         ctx.label("member_sliced_by_bounds")
 
 
 def check_position(spec, ctx):
+    _FLAGS["minus_chunk"] = spec.get("chunk_strand") == "-"
     o, coll, parent = build(spec)
     g = spec.get("genome")
     kids = children_of(o)
@@ -219,6 +231,7 @@ def check_position(spec, ctx):
 
 
 def check_ids(spec, ctx):
+    _FLAGS["minus_chunk"] = spec.get("chunk_strand") == "-"
     o, coll, parent = build(spec)
     g = spec.get("genome") if spec["parent"] in ("chrom", "chunk") else None
     kids = children_of(o)
@@ -254,6 +267,29 @@ def check_ids(spec, ctx):
     if pick:
         res = coll.query_by_guids(pick[0])
         check_result_members(ctx, "guid_single", coll, res, [k for k, gu in zip(kids, guids) if gu == pick[0]], g, coll.start, coll.end)
+    # --- a sub-collection obtained by a relaxed position query has the window as its bounds while members may overhang it; a
+    # GUID query on THAT collection keeps the asked members and spans the source bounds and every kept member
+    we_ = max(k[3] for k in kids) - 1
+    ws_ = coll.start
+    if we_ > ws_ and we_ <= coll.end:
+        try:
+            sub = coll.query_by_position(ws_, we_, completely_within=False)
+        except (InvalidQueryError, BioCantorException):
+            sub = None
+        if sub is not None and not sub.is_empty:
+            exp_sub = [k for k in kids if max(ws_, k[2]) < min(we_, k[3])]
+            sub_guids = [c.guid for c in sub.iter_children()]
+            try:
+                res2 = sub.query_by_guids(sub_guids[::-1])
+                ctx.eq("guids_on_relaxed_subcollection:members", sorted(str(c.guid) for c in res2.iter_children()), sorted(str(src_child(coll, k[0], k[1]).guid) for k in exp_sub))
+                ctx.eq("guids_on_relaxed_subcollection:bounds", (res2.start, res2.end), (min([sub.start] + [k[2] for k in exp_sub]), max([sub.end] + [k[3] for k in exp_sub])))
+                ctx.label("guid_query_on_relaxed_subcollection")
+                over = [k for k in exp_sub if k[3] > we_]
+                if over and any(k2[2] > min(k[2] for k in over) and k2[3] < max(k[3] for k in over) for k2 in exp_sub):
+                    ctx.label("overhanging_member_with_a_later_starting_earlier_ending_one")
+            except (InvalidQueryError, BioCantorException) as e:
+                if g is None:
+                    ctx.fail("guids_on_relaxed_subcollection_raises", repr(e)[:120])
     # --- interval GUIDs
     wanted = []
     exp_children = {}
@@ -294,6 +330,14 @@ def check_ids(spec, ctx):
 def coll_base(draw, tier):
     o = draw(S.collection_spec(max_genes=3, max_fcs=2, region_step=25))
     hi = o.pop("hi")
+    # members with a block nested inside another (features, non-coding transcripts)
+    for c_ in o["feature_collections"]:
+        for f_ in c_["features"]:
+            S.nest_block(draw, f_["blocks"], 6)
+    for g_ in o["genes"]:
+        for t_ in g_["transcripts"]:
+            if "cds" not in t_:
+                S.nest_block(draw, t_["exons"], 6)
     sp = {"obj": o}
     mode = draw(st.sampled_from(["none", "chrom", "chrom", "chunk", "id_only", "shifted", "shifted"]))
     if mode == "shifted":
